@@ -586,9 +586,9 @@ impl<'lifespan: 'transient, 'transient, 'outer: 'lifespan> IsotopicDistribution<
             if peak.intensity < 1e-10 {
                 if !has_real_peaks {
                     peak_list.push(peak);
-                } else {
-                    break;
                 }
+                // a negligible variant after a real one is skipped, not taken as the end of the
+                // pattern: variants beyond an interior gap or valley can carry real signal
             } else {
                 has_real_peaks = true;
                 peak_list.push(peak);
